@@ -160,3 +160,186 @@ Proof.
     { exists w. split; [by apply (find_w_elem c s w I)|]. split; [|done]. intros Hx. apply Hnp, Hpaid. by right. }
     apply Hnp, Hpaid. left. by apply Hcomplete.
 Qed.
+
+(* ------------------------------------------------------------------------------------ *)
+(* the relay phase: every pending emitted event, in order, is processed                     *)
+(* ------------------------------------------------------------------------------------ *)
+Require Model.Genesis1 Proofs.Genesis1Inv Proofs.C07Proofs Proofs.BankNonneg Proofs.BankTotal.
+
+(* the emitted events of the bridge are gap-free from 1 and carry fields L2 accepts *)
+Record evok (c : scfg) (s : sys) : Prop := {
+  ev_fields : ∀ ev, ev ∈ bevents c (l1 s) →
+     is_Some (L1.resolve (c1 c) (L1.e_from ev)) ∧ valid_denom (L1.e_l1denom ev) = true ∧ (1 ≤ L1.e_seq ev)%N;
+  ev_complete : ∀ k, (1 ≤ k < L1.seq_of (l1 s) (bid c))%N → ∃ ev, ev ∈ bevents c (l1 s) ∧ L1.e_seq ev = k;
+  ev_next : (1 ≤ L1.seq_of (l1 s) (bid c))%N;
+}.
+
+Lemma step_l1_events c s m :
+  let s' := (sys_step c s m).1 in
+  (bevents c (l1 s') = bevents c (l1 s) ∧ L1.seq_of (l1 s') (bid c) = L1.seq_of (l1 s) (bid c)) ∨
+  (∃ ev, bevents c (l1 s') = ev :: bevents c (l1 s) ∧
+         L1.seq_of (l1 s') (bid c) = (L1.seq_of (l1 s) (bid c) + 1)%N ∧ L1.e_seq ev = L1.seq_of (l1 s) (bid c) ∧
+         is_Some (L1.resolve (c1 c) (L1.e_from ev)) ∧ valid_denom (L1.e_l1denom ev) = true).
+Proof.
+  cbn zeta.
+  assert (Hfr : ∀ s1, L1.elog s1 = L1.elog (l1 s) → L1.next_seq s1 = L1.next_seq (l1 s) →
+                bevents c s1 = bevents c (l1 s) ∧ L1.seq_of s1 (bid c) = L1.seq_of (l1 s) (bid c)).
+  { intros s1 He Hs. split; [by apply bevents_same|by apply seq_of_same]. }
+  destruct m as [e sender to d amt data|e from to d amt|m2|k ex h hook|e p idx l2b lo hi v bh|e ch idx|e sender idx m lo hi v bh|e m1];
+    cbn [sys_step].
+  - case_bool_decide; [by left|]. unfold lift1, L1.step. cbn [L1.handle].
+    destruct (L1.deposit (c1 c) e (l1 s) sender (bid c) to d amt data) as [[s1 r]|] eqn:Hd; [|by left].
+    cbn [fst set_l1 l1]. right.
+    pose proof (l1_deposit_Some _ _ _ _ _ _ _ _ _ _ _ Hd) as (Hsd & _ & Hvd & _).
+    apply l1_deposit_effect in Hd as (sd & _ & _ & _ & Hel & Hseq & _).
+    eexists. split; [unfold bevents; rewrite Hel; by rewrite filter_cons_True|]. cbn. done.
+  - case_bool_decide; [by left|]. unfold lift1, L1.step. cbn [L1.handle].
+    destruct (L1.bank_send_msg _ _ _ _ _) as [[s1 r]|] eqn:Hd; [|by left].
+    apply l1_bank_send_effect in Hd as (_ & Hel & Hsq & _). left. case_bool_decide; cbn; by apply Hfr.
+  - left. destruct (l2_plain m2); [|done]. unfold lift2. destruct (L2.step _ _ _) as [s2 [r|]]; done.
+  - left. destruct (find_event c (l1 s) k) as [ev|]; [|done]. unfold lift2. destruct (L2.step _ _ _) as [s2 [r|]]; done.
+  - left. unfold lift1, L1.step. cbn [L1.handle].
+    destruct (L1.propose _ _ _ _ _ _ _ _) as [[s1 r]|] eqn:Hd; [|done].
+    apply l1_propose_effect in Hd as (_ & Hel & Hsq & _). cbn. by apply Hfr.
+  - left. unfold lift1, L1.step. cbn [L1.handle].
+    destruct (L1.delete_output _ _ _ _ _ _) as [[s1 r]|] eqn:Hd; [|done].
+    apply l1_delete_effect in Hd as (_ & Hel & Hsq & _). cbn. by apply Hfr.
+  - left. destruct (find_w (l2 s) m) as [w|]; [|done]. unfold lift1, L1.step, claim_of. cbn [L1.handle].
+    destruct (L1.finalize _ _ _ _ _ _ _ _ _ _ _ _ _ _ _) as [[s1 r]|] eqn:Hd; [|done].
+    apply l1_finalize_effect in Hd as (rcv & _ & _ & _ & Hel & Hsq & _). cbn. by apply Hfr.
+  - left. destruct (l1_admin m1) eqn:Ha; [|done]. unfold lift1, L1.step.
+    destruct (L1.handle (c1 c) e (l1 s) m1) as [[s1 r]|] eqn:Hh; [|done].
+    apply (l1_admin_frame _ _ _ _ _ _ Ha) in Hh as (_ & Hel & Hsq & _). cbn. by apply Hfr.
+Qed.
+
+Lemma step_evok c s m : evok c s → evok c (sys_step c s m).1.
+Proof.
+  intros [E1 E2 E3]. destruct (step_l1_events c s m) as [[Hb Hs]|(ev & Hb & Hs & Hseq & Hfrom & Hd)]; split.
+  - rewrite Hb. exact E1.
+  - rewrite Hb, Hs. exact E2.
+  - rewrite Hs. exact E3.
+  - rewrite Hb. intros x Hx. apply elem_of_cons in Hx as [->|Hx]; [|by apply E1]. split; [done|]. split; [done|lia].
+  - rewrite Hb, Hs. intros k Hk. destruct (decide (k = L1.seq_of (l1 s) (bid c))) as [->|Hne].
+    + exists ev. split; [by left|done].
+    + destruct (E2 k ltac:(lia)) as (x & Hx & Hxk). exists x. split; [by right|done].
+  - rewrite Hs. lia.
+Qed.
+
+Lemma run_evok c h : ∀ s, evok c s → evok c (sys_run c s h).
+Proof. induction h as [|m h IH]; intros s E; cbn; [done|]. apply IH. by apply step_evok. Qed.
+
+Lemma fresh_evok c s : fresh c s → evok c s.
+Proof.
+  intros (F1 & _ & _ & _ & F5 & _). split.
+  - unfold bevents. rewrite F1. intros ev Hev. by apply elem_of_nil in Hev.
+  - rewrite F5. intros k Hk. lia.
+  - rewrite F5. lia.
+Qed.
+
+Lemma step_next_l1_mono c s m : (L2.next_l1 (l2 s) ≤ L2.next_l1 (l2 (sys_step c s m).1))%N.
+Proof.
+  assert (HL2 : ∀ m2, (L2.next_l1 (l2 s) ≤ L2.next_l1 (l2 (lift2 c s m2).1))%N).
+  { intros m2. unfold lift2. pose proof (step_processed (c2 c) (l2 s) m2) as (k & Hk & _).
+    destruct (L2.step (c2 c) (l2 s) m2) as [s2 [r|]]; cbn in *; lia. }
+  destruct m as [e sender to d amt data|e from to d amt|m2|k ex h hook|e p idx l2b lo hi v bh|e ch idx|e sender idx m lo hi v bh|e m1];
+    cbn [sys_step].
+  - case_bool_decide; [done|]. unfold lift1. destruct (L1.step _ _ _ _) as [s1 [r|]]; done.
+  - case_bool_decide; [done|]. unfold lift1. destruct (L1.step _ _ _ _) as [s1 [r|]]; [|done]. case_bool_decide; done.
+  - destruct (l2_plain m2); [apply HL2|done].
+  - destruct (find_event c (l1 s) k) as [ev|]; [apply HL2|done].
+  - unfold lift1. destruct (L1.step _ _ _ _) as [s1 [r|]]; done.
+  - unfold lift1. destruct (L1.step _ _ _ _) as [s1 [r|]]; done.
+  - destruct (find_w (l2 s) m) as [w|]; [|done]. unfold lift1. destruct (L1.step _ _ _ _) as [s1 [r|]]; done.
+  - destruct (l1_admin m1); [|done]. unfold lift1. destruct (L1.step _ _ _ _) as [s1 [r|]]; done.
+Qed.
+
+Lemma run_next_l1_ge c h : ∀ s, (L2.next_l1 (l2 s) ≤ L2.next_l1 (l2 (sys_run c s h)))%N.
+Proof.
+  induction h as [|m h IH]; intros s; cbn; [done|].
+  pose proof (step_next_l1_mono c s m). specialize (IH (sys_step c s m).1). lia.
+Qed.
+
+Lemma is_executor_prm c s s' x : L2.prm s' = L2.prm s → L2.is_executor c s' x = L2.is_executor c s x.
+Proof. intros Hp. unfold L2.is_executor. by rewrite Hp. Qed.
+
+Section relays.
+  Variable c : scfg.
+  Variable s0 : sys.
+  Hypothesis G : genesis c s0.
+  Hypothesis Hnil2 : L2.resolve (c2 c) [] = None.
+  Hypothesis Hnil1 : L1.resolve (c1 c) [] = None.
+  Hypothesis Hwf : Genesis1.hash_wf (c1 c).
+  Variables (ex : bytes) (height : N) (hk : N → L2.hookp).
+  Hypothesis Hheight : height ≠ 0%N.
+
+  (* the next pending event is processed (credited or refunded - C07 totality), whatever its hook *)
+  Lemma relay_next_ok h :
+    let s := sys_run c s0 h in
+    (L2.next_l1 (l2 s) < L1.seq_of (l1 s) (bid c))%N → L2.is_executor (c2 c) (l2 s) ex = true →
+    let r := sys_step c s (SRelay (L2.next_l1 (l2 s)) ex height (hk (L2.next_l1 (l2 s)))) in
+    r.2 = true ∧ L2.next_l1 (l2 r.1) = (L2.next_l1 (l2 s) + 1)%N ∧ l1 r.1 = l1 s ∧ L2.prm (l2 r.1) = L2.prm (l2 s).
+  Proof.
+    intros s Hlt Hex. cbn zeta.
+    pose proof (run_inv c h s0 (fresh_inv c s0 (proj1 G))) as I. fold s in I.
+    pose proof (run_evok c h s0 (fresh_evok c s0 (proj1 G))) as [E1 E2 E3]. fold s in E1, E2, E3.
+    destruct (run_ok c h s0 Hnil2 (fresh_nonneg c s0 (proj1 G)) (fresh_l2ok c s0 (proj1 G))) as [[N1 _] _]. fold s in N1.
+    pose proof (run_bank_sane c h s0 (proj2 G)) as [Bn _]. fold s in Bn.
+    assert (H1 : (1 ≤ L2.next_l1 (l2 s))%N).
+    { pose proof (run_next_l1_ge c h s0). destruct G as [(_&_&_&_&_&_&_&F8&_) _]. fold s in H. lia. }
+    set (k := L2.next_l1 (l2 s)) in *.
+    destruct (E2 k ltac:(lia)) as (ev0 & Hin0 & Hk0).
+    cbn [sys_step]. destruct (find_event c (l1 s) k) as [ev|] eqn:Hf.
+    2:{ exfalso. unfold find_event in Hf. pose proof (find_none _ _ Hf ev0 ltac:(by apply elem_of_list_In)) as Hx.
+        cbn in Hx. rewrite Hk0, N.eqb_refl in Hx. discriminate. }
+    apply find_elem in Hf as [Hin Hk]. apply N.eqb_eq in Hk.
+    destruct (E1 ev Hin) as (Hfrom & Hd1 & Hs1). destruct (N1 ev Hin) as [[Hamt0 _] _].
+    destruct (i_ev_lt _ _ I ev Hin) as [_ Hl2d].
+    set (m := relay_msg ev ex height (hk k)).
+    assert (Hv : L2.fdep_valid (c2 c) m = true).
+    { unfold L2.fdep_valid, coin_valid, m. cbn [relay_msg L2.fd_sender L2.fd_from L2.fd_denom L2.fd_amt L2.fd_base L2.fd_seq L2.fd_height].
+      assert (Hr : is_Some (L2.resolve (c2 c) ex)).
+      { unfold L2.is_executor in Hex. destruct (L2.resolve (c2 c) ex); [eauto|discriminate]. }
+      rewrite (bool_decide_eq_true_2 _ Hr).
+      rewrite bool_decide_eq_false_2 by (intros Heq; rewrite Heq, Hnil1 in Hfrom; by destruct Hfrom).
+      rewrite Hl2d. unfold l2d. rewrite (Genesis1Inv.l2_denom_valid (c1 c) (bid c) _ Hwf), Hd1.
+      replace (0 <=? L1.e_amt ev)%Z with true by (symmetry; apply Z.leb_le; lia).
+      replace (L1.e_seq ev =? 0)%N with false by (symmetry; apply N.eqb_neq; lia).
+      replace (height =? 0)%N with false by (symmetry; by apply N.eqb_neq). reflexivity. }
+    destruct (C07Proofs.c07_total_plain (c2 c) (l2 s) m Hv Hex ltac:(exact Hk) (BankNonneg.nonneg_funds_sane _ _ _ Bn))
+      as (s2 & Hstep & (Hn1 & Hprm & _) & _).
+    unfold lift2. fold m. rewrite Hstep. cbn. done.
+  Qed.
+
+  Lemma relay_phase n : ∀ h,
+    let s := sys_run c s0 h in
+    N.to_nat (L1.seq_of (l1 s) (bid c) - L2.next_l1 (l2 s)) = n → L2.is_executor (c2 c) (l2 s) ex = true →
+    let ks := seq_from n (L2.next_l1 (l2 s)) in
+    let s' := sys_run c s (relay_steps ex height hk ks) in
+    Forall (λ b, b = true) (sys_oks c s (relay_steps ex height hk ks)) ∧ l1 s' = l1 s ∧
+    L2.next_l1 (l2 s') = L1.seq_of (l1 s) (bid c) ∧ L2.prm (l2 s') = L2.prm (l2 s).
+  Proof.
+    induction n as [|n IH]; intros h s Hn Hex; cbn zeta.
+    - cbn. split; [constructor|]. split; [done|]. split; [|done].
+      pose proof (i_next _ _ (run_inv c h s0 (fresh_inv c s0 (proj1 G)))). fold s in H. lia.
+    - assert (Hlt : (L2.next_l1 (l2 s) < L1.seq_of (l1 s) (bid c))%N) by lia.
+      destruct (relay_next_ok h Hlt Hex) as (Hok & Hn1 & Hl1 & Hprm). fold s in Hok, Hn1, Hl1, Hprm.
+      set (st := SRelay (L2.next_l1 (l2 s)) ex height (hk (L2.next_l1 (l2 s)))) in *.
+      set (s1 := (sys_step c s st).1) in *.
+      assert (Hs1 : s1 = sys_run c s0 (h ++ [st])) by (rewrite sys_run_app; reflexivity).
+      specialize (IH (h ++ [st])). cbn zeta in IH. rewrite <- Hs1 in IH.
+      destruct IH as (Hoks & Hl1' & Hn' & Hprm').
+      + rewrite Hl1, Hn1. lia.
+      + rewrite (is_executor_prm _ _ _ _ Hprm). exact Hex.
+      + rewrite Hn1 in *. cbn [seq_from relay_steps map sys_run sys_oks]. fold (relay_steps ex height hk). fold st. fold s1.
+        split; [constructor; [exact Hok|exact Hoks]|]. rewrite Hl1 in *. split; [done|]. split; [done|]. etrans; [exact Hprm'|exact Hprm].
+  Qed.
+End relays.
+
+Lemma pending_dep_zero c s d :
+  C08Proofs.inv c s → L2.next_l1 (l2 s) = L1.seq_of (l1 s) (bid c) → pending_dep c s d = 0%Z.
+Proof.
+  intros I Hn. unfold pending_dep. rewrite (zsum_ext _ (λ _, 0%Z)).
+  - induction (bevents c (l1 s)); cbn; lia.
+  - intros ev Hev. destruct (i_ev_lt _ _ I ev Hev) as [Hlt _].
+    rewrite bool_decide_eq_false_2; [done|]. intros [? _]. lia.
+Qed.
